@@ -136,6 +136,9 @@ type Layout struct {
 	XRefPredictor bool  // xref streams use PNG predictor 12
 	GapsAsFree bool
 	ObjStmExtends bool // chain object streams of a revision with /Extends
+	// content-level spellings (text unchanged): comments between tokens, the ' and "
+	// show operators, TJ arrays with kerning numbers, trailing lines moved into a Form XObject
+	Comments, Quotes, TJKern, Forms bool
 }
 
 // Built is the result of building a file.
@@ -253,8 +256,20 @@ func (b *builder) filtersFor(key string, dataLen int) []FilterStage {
 }
 
 // content renders a page's lines into content-stream tokens.
-func contentTokens(p *PageL, fontName func(int) string, r *rand.Rand) []string {
+// contentStyle selects optional spellings of a content stream.
+type contentStyle struct {
+	comments, quotes, tjKern bool
+	eol                      string
+	codeWidth                func(font int) int // bytes per character code
+}
+
+func contentTokens(p *PageL, fontName func(int) string, r *rand.Rand, cs contentStyle) []string {
 	var t []string
+	comment := func() {
+		if cs.comments && r.Intn(4) == 0 {
+			t = append(t, "% note "+fmt.Sprint(r.Intn(1000))+" (not) text Tj"+cs.eol)
+		}
+	}
 	num := func(f float64) string { return strings.TrimSuffix(strings.TrimSuffix(fmt.Sprintf("%.3f", f), "0"), "0") }
 	fix := func(s string) string {
 		if strings.HasSuffix(s, ".") {
@@ -270,15 +285,23 @@ func contentTokens(p *PageL, fontName func(int) string, r *rand.Rand) []string {
 	oneBT := r.Intn(2) == 0
 	if oneBT && len(p.Lines) > 0 {
 		t = append(t, "BT")
+		if cs.quotes {
+			t = append(t, "0", "TL") // ' and " move by the leading: zero keeps the line where Td/Tm put it
+		}
 	}
 	px, py := 0.0, 0.0
 	for _, ln := range p.Lines {
+		comment()
 		if !oneBT {
 			t = append(t, "BT")
 			px, py = 0, 0
+			if cs.quotes {
+				t = append(t, "0", "TL")
+			}
 		}
 		first := true
 		for _, sh := range ln.Shows {
+			lineStart := first // ' and " return to the start of the line (T*): only the first show of a line may use them
 			t = append(t, "/"+fontName(sh.Font), fix(num(ln.Size)), "Tf")
 			if first {
 				if r.Intn(2) == 0 {
@@ -289,10 +312,24 @@ func contentTokens(p *PageL, fontName func(int) string, r *rand.Rand) []string {
 				px, py = ln.X, ln.Y
 				first = false
 			}
-			if r.Intn(3) == 0 && len(sh.Codes) >= 2 {
-				// TJ with one string (no kerning so fragment boundaries stay per show)
+			comment()
+			w := 1
+			if cs.codeWidth != nil {
+				w = cs.codeWidth(sh.Font)
+			}
+			switch {
+			case cs.tjKern && len(sh.Codes) >= 2*w && r.Intn(2) == 0:
+				// TJ with kerning numbers between pieces cut at code boundaries
+				k := (1 + r.Intn(len(sh.Codes)/w-1)) * w
+				t = append(t, "[", str(sh.Codes[:k]), fmt.Sprint(-40+r.Intn(81)), str(sh.Codes[k:]), "]", "TJ")
+			case cs.quotes && lineStart && r.Intn(2) == 0:
+				t = append(t, str(sh.Codes), "'")
+			case cs.quotes && lineStart && r.Intn(3) == 0:
+				t = append(t, "0", "0", str(sh.Codes), "\"")
+			case r.Intn(3) == 0 && len(sh.Codes) >= 2:
+				// TJ with one string
 				t = append(t, "[", str(sh.Codes), "]", "TJ")
-			} else {
+			default:
 				t = append(t, str(sh.Codes), "Tj")
 			}
 		}
@@ -472,6 +509,33 @@ func (b *builder) materialize(d *Doc) (map[string]any, []string) {
 		return fd
 	}
 	var contentKeys []string
+	codeWidth := func(fi int) int {
+		if d.Fonts[fi].Kind == "type0-identity" {
+			return 2
+		}
+		return 1
+	}
+	style := contentStyle{comments: b.lay.Comments, quotes: b.lay.Quotes, tjKern: b.lay.TJKern, eol: b.lay.EOL, codeWidth: codeWidth}
+	if style.eol == "" {
+		style.eol = "\n"
+	}
+	// Form XObjects: the trailing lines of some pages are drawn by a form. The
+	// form must be reachable through the Resources dictionary the page uses.
+	formLines := map[int]int{} // leaf id -> number of trailing lines moved into the form
+	formsOf := map[int][]int{} // resources-owner node id -> leaf ids with a form
+	if b.lay.Forms {
+		for _, lf := range d.Leaves() {
+			pg := lf.Node.Page
+			er := b.entRand("form:" + fmt.Sprint(lf.Node.ID) + pageSig(pg))
+			if len(pg.Lines) >= 2 && er.Intn(2) == 0 {
+				if own := lf.ResourcesOwner(); own != nil {
+					formLines[lf.Node.ID] = 1 + er.Intn(len(pg.Lines)-1)
+					formsOf[own.ID] = append(formsOf[own.ID], lf.Node.ID)
+					b.feat["content.form"] = true
+				}
+			}
+		}
+	}
 	var walk func(n *Node, parent *Node) int
 	walk = func(n *Node, parent *Node) int {
 		key := fmt.Sprintf("node:%d", n.ID)
@@ -494,21 +558,53 @@ func (b *builder) materialize(d *Doc) (map[string]any, []string) {
 		if n.Resources {
 			fd := fontDict(n.DecoyFonts)
 			var res any
+			xo := Dict{}
+			for _, lid := range formsOf[n.ID] {
+				xo = append(xo, KV{fmt.Sprintf("Fm%d", lid), Ref{fmt.Sprintf("form:%d", lid)}})
+			}
 			if b.lay.ResIndirect {
 				fk := key + ":fonts"
 				objs[fk] = fd
 				rk := key + ":res"
-				objs[rk] = Dict{{"Font", Ref{fk}}, {"ProcSet", Arr{Name("PDF"), Name("Text")}}}
+				rd := Dict{{"Font", Ref{fk}}, {"ProcSet", Arr{Name("PDF"), Name("Text")}}}
+				if len(xo) > 0 {
+					rd = append(rd, KV{"XObject", xo})
+				}
+				objs[rk] = rd
 				res = Ref{rk}
 			} else {
-				res = Dict{{"Font", fd}}
+				rd := Dict{{"Font", fd}}
+				if len(xo) > 0 {
+					rd = append(rd, KV{"XObject", xo})
+				}
+				res = rd
 			}
 			dict = append(dict, KV{"Resources", res})
 		}
 		count := 0
 		if n.Page != nil {
 			count = 1
-			toks := contentTokens(n.Page, func(i int) string { return fmt.Sprintf("F%d", i+1) }, b.entRand("content:"+key+fmt.Sprint(len(n.Page.Lines), pageSig(n.Page))))
+			fname := func(i int) string { return fmt.Sprintf("F%d", i+1) }
+			cr := b.entRand("content:" + key + fmt.Sprint(len(n.Page.Lines), pageSig(n.Page)))
+			pageLines := n.Page
+			if k := formLines[n.ID]; k > 0 {
+				cut := len(n.Page.Lines) - k
+				pageLines = &PageL{ID: n.Page.ID, Lines: n.Page.Lines[:cut]}
+				fr := b.entRand("formcontent:" + key + pageSig(n.Page))
+				ftoks := contentTokens(&PageL{Lines: n.Page.Lines[cut:]}, fname, fr, style)
+				fd := Dict{{"Type", Name("XObject")}, {"Subtype", Name("Form")}, {"BBox", Arr{0, 0, 2000, 2000}}}
+				if fr.Intn(2) == 0 {
+					fd = append(fd, KV{"Matrix", Arr{1, 0, 0, 1, 0, 0}})
+				}
+				if fr.Intn(2) == 0 { // own resources (same font names) or the page's
+					fd = append(fd, KV{"Resources", Dict{{"Font", fontDict(false)}}})
+				}
+				objs[fmt.Sprintf("form:%d", n.ID)] = &Stream{D: fd, Raw: []byte(strings.Join(ftoks, " ") + style.eol)}
+			}
+			toks := contentTokens(pageLines, fname, cr, style)
+			if formLines[n.ID] > 0 {
+				toks = append(toks, "q", fmt.Sprintf("/Fm%d", n.ID), "Do", "Q")
+			}
 			if len(toks) > 0 {
 				er := b.entRand("split:" + key + pageSig(n.Page))
 				parts := splitContent(toks, b.lay.Split, b.lay.SplitNoWS, b.lay.EOL, b.lay.BigContent, er)
